@@ -358,7 +358,7 @@ def wantOf {β : Type} (s : Spec) (r : Option β) (f : β → String) (get : β 
 /-- judge the implementation's answer: `want` = expected result text and reference after the
 operation; `isQuery` = the state must not change at all -/
 def judge (st : St) (impl : Option (List String)) (want : Want) (isQuery : Bool) (resClause : String)
-    (copyJK : Option (Nat × Nat) := none) : String × Option World :=
+    (copyJK : Option (Nat × Nat) := none) (mayChangeWhenRaising : Bool := false) : String × Option World :=
   match impl with
   | none => ("-", none)
   | some t =>
@@ -404,7 +404,7 @@ def judge (st : St) (impl : Option (List String)) (want : Want) (isQuery : Bool)
                 else if res != norm want.res then "FAIL:" ++ resClause
                 else if res.startsWith "ok indep" && !copyOk then "FAIL:copy_same_relations"
                 else if isQuery && !unchanged then "FAIL:query_changes_state"
-                else if (res == "exc:bpp" || res == "exc:std") && !unchanged then "FAIL:raises_unchanged"
+                else if (res == "exc:bpp" || res == "exc:std") && !unchanged && !mayChangeWhenRaising then "FAIL:raises_unchanged"
                 else "ok"
         (v, some wi)
       | none => ("FAIL:parse", none)
@@ -477,6 +477,14 @@ def parseOp (t : List String) : Option Op :=
   | ["setRoot", n] => some (.setRoot (nat n))
   | _ => none
 
+/-- a mutator applied to (a copy of) the graph: result text and state -/
+def applyText (g : G) (t : List String) : Option (String × G) :=
+  match t with
+  | ["orientate"] => some (match g.orientate with | .ok _ g' => ("ok", g') | .exc g' => ("exc:bpp", g'))
+  | _ => (parseOp t).map (fun op =>
+      let r := g.applyR op
+      (match r with | .ok l _ => (if l.isEmpty then "ok" else showNats l) | .exc _ => "exc:bpp", r.state))
+
 def step (st : St) (op : List String) (impl : Option (List String)) : St × String × String :=
   let nat (s : String) : Nat := s.toNat?.getD 0
   let okS (_ : Unit) := "ok"
@@ -511,17 +519,22 @@ def step (st : St) (op : List String) (impl : Option (List String)) : St × Stri
     mutOp st impl st.g.makeUndirected okS sp.makeUndirected (fun _ => "ok") id
   | ["setRoot", n] =>
     mutOp st impl (st.g.setRoot (nat n)) okS (sp.setRoot (nat n)) (fun _ => "ok") id
+  | ["orientate"] =>
+    -- the reference multigraph replays `makeDirected` and the recorded `switchNodes` calls on its own
+    -- definitions; whether the call raises is the model's (it depends on the traversal)
+    let run := st.g.orientRun
+    let (r', w') := st.w.graphOp st.g.orientate
+    let res := match r' with | .ok _ _ => "ok" | .exc _ => "exc:bpp"
+    let want : Want := { res := res, spec := sp.orientReplay run.switches }
+    -- a raising `orientate` has re-oriented part of the graph: it is judged like a succeeding call
+    finish st res w' want (judge st impl want false "result_spec" none true)
   | "gcopy" :: _kind :: rest =>
     -- a mutator called on a copy of the graph (copy constructor / operator= / clone()): the copy is a
     -- graph of its own, without observers; the original and its observers do not change
-    match parseOp rest with
+    match applyText st.g rest with
     | none => (st, "bad-op", "-")
-    | some op =>
-      let r := st.g.applyR op
-      let txt := match r with
-        | .ok l _ => if l.isEmpty then "ok" else showNats l
-        | .exc _ => "exc:bpp"
-      let res := s!"{txt} reg 0 copy {showGraph { r.state with pending := [] }}"
+    | some (txt, g') =>
+      let res := s!"{txt} reg 0 copy {showGraph { g' with pending := [] }}"
       let want : Want := { res := res, spec := sp }
       finish st res st.w want (judge st impl want true "graph_copy_is_separate")
   | ["gassign", n] =>
@@ -631,6 +644,9 @@ def step (st : St) (op : List String) (impl : Option (List String)) : St × Stri
     let k := nat k; let a := nat a
     let sr : Option Spec := (gid k a).bind sp.setRoot
     omut st impl ((w.setRootObj k a).str okS) (wantOf sp sr (fun _ => "ok") id)
+  | ["o.rereg", k] =>
+    let r : OOut String := if (w.getObs (nat k)).isNone then .ub else .ok ("exc:bpp reg " ++ reg w) w
+    omut st impl r keep
   | ["o.drop", k] =>
     let k := nat k
     let r : OOut String := if k == 0 || (w.getObs k).isNone then .ub else .ok ("ok reg " ++ reg (w.drop k)) (w.drop k)
